@@ -22,7 +22,7 @@ EXHAUSTIVE_STREAM = True
 ASSUMPTIONS = ["members added to a class after decoration and C-implemented descriptors other than slot wrappers are not covered",
                "a plain (non-DBC, undecorated) subclass of a decorated class is invisible to the library (known finding)"]
 
-COS = [(True, False), (False, True), (True, True)]
+COS = [(True, False), (False, True), (True, True), (False, False)]    # (the last: the EMPTY check_on flag - only the constructor checks it)
 NAMES = ["pub", "_prot", "__priv", "__len__", "__call__", "__eq__", "__getattr__", "__repr__", "__str__", "prop", "_prot_prop",
          "static", "classm", "wo_prop", "__unm", "__delattr__", "__getitem__", "__contains__", "__setattr__"]
 KIND = {"__delattr__": "function", "__getitem__": "function", "__contains__": "function", "alias_pub": "function", "__radd__": "function", "static0": "staticmethod", "classm0": "classmethod", "apub": "function", "__unm": "function", "pub": "function", "other_pub": "function", "_prot": "function", "__priv": "function", "__len__": "function",
@@ -79,6 +79,10 @@ run_directed = directed.run
 
 def cases(tier, rng):
     thorough = tier == "thorough"
+    for c in directed.members_from_invariantless_bases_cases():
+        yield "directed-members-from-invariantless-bases", c
+    for c in directed.keyword_named_self_cases():
+        yield "directed-keyword-named-self", c
     for c in directed.member_added_between_invariants_cases():
         yield "directed-member-added-between-invariants", c
     for c in sel_cases():
